@@ -583,6 +583,15 @@ fb_fs make_alloc<fb_fs>(obs* o)
 {
     return fb_fs(ialloc(o), csalloc());
 }
+// allocator_adapter<A> = allocator_storage<direct_storage<A>, no_mutex>: a stateful allocator that happens to be an
+// allocator_storage instantiation itself; wrapped again (directly / by reference / type-erased) it must be locked
+using adp = fm::allocator_adapter<ialloc>;
+static_assert(std::is_same<adp, fm::allocator_storage<fm::direct_storage<ialloc>, fm::no_mutex>>::value, "");
+template <>
+adp make_alloc<adp>(obs* o)
+{
+    return adp(ialloc(o));
+}
 using tk_sf = fm::tracked_allocator<itracker, csalloc>; // stateful tracker over a stateless allocator
 using tk_es = fm::tracked_allocator<etracker, ialloc>;  // empty tracker over a stateful allocator
 template <>
@@ -700,6 +709,29 @@ void do_op(St& st, int op, std::vector<void*>& ret)
         break;
     }
     }
+}
+
+// A type-erased HANDLE created from the (lvalue) thread safe storage object: any_allocator_reference href(st).
+// It must refer to the storage object itself, so that calls through it take the storage's mutex; threads with an odd
+// id work through the handle, the others use the storage object directly.
+template <class Base>
+struct handle_holder : Base
+{
+    fm::any_allocator_reference href;
+    explicit handle_holder(obs* o) : Base(o), href(this->st) {}
+};
+template <class H>
+void run_op(H& h, int, int op, std::vector<void*>& ret)
+{
+    do_op(h.st, op, ret);
+}
+template <class Base>
+void run_op(handle_holder<Base>& h, int thread, int op, std::vector<void*>& ret)
+{
+    if (thread & 1)
+        do_op(h.href, op, ret);
+    else
+        do_op(h.st, op, ret);
 }
 
 using program = std::vector<std::vector<int>>;
@@ -933,7 +965,7 @@ struct pworld : pworld_base
     void run_thread(int id) override
     {
         for (int op : prog[std::size_t(id)])
-            do_op(h->st, op, ret[id]);
+            run_op(*h, id, op, ret[id]);
     }
 };
 
@@ -942,7 +974,8 @@ struct run_cfg
     std::string storage = "direct", alloc = "stateful", mutex = "inst";
     // alloc: stateful | stateless | empty (empty class, is_stateful) | tracked-sf (stateful tracker over stateless
     //        allocator) | tracked-es (empty tracker over stateful allocator) | fallback-sf (fallback_allocator<stateless
-    //        default, stateful fallback>) | fallback-fs (the reverse);  mutex: inst | empty (empty Mutex class)
+    //        default, stateful fallback>) | fallback-fs (the reverse) | adapter (allocator_adapter<stateful>) | handle (stateful;
+    //        odd threads work through an any_allocator_reference made from the storage object);  mutex: inst | empty
 };
 
 template <template <class, class> class Holder>
@@ -967,6 +1000,10 @@ static pworld_base* make_world_for(const run_cfg& c, const program& p)
         return new pworld<Holder<tk_es, imutex>>(p);
     if (c.alloc == "fallback-sf")
         return new pworld<Holder<fb_sf, imutex>>(p);
+    if (c.alloc == "adapter")
+        return new pworld<Holder<adp, imutex>>(p);
+    if (c.alloc == "handle")
+        return new pworld<handle_holder<Holder<ialloc, imutex>>>(p);
     if (c.alloc == "fallback-fs")
         return new pworld<Holder<fb_fs, imutex>>(p);
     std::fprintf(stderr, "unknown alloc %s\n", c.alloc.c_str());
@@ -2028,7 +2065,7 @@ static long free_run(const program& p, long iters, long& bad_state)
                 while (!go.load(std::memory_order_relaxed)) // relaxed: no happens-before edge between the bodies
                     std::this_thread::yield();
                 for (int op : p[i])
-                    do_op(h.st, op, ret[i]);
+                    run_op(h, int(i), op, ret[i]);
             });
         go.store(1, std::memory_order_relaxed);
         for (auto& t : th)
@@ -2049,6 +2086,10 @@ static long free_run_storage(const std::string& storage, const program& p, long 
         return free_run<direct_holder<ealloc>>(p, iters, bad);
     if (storage == "direct-tracked") // stateful tracker over a stateless allocator
         return free_run<direct_holder<tk_sf>>(p, iters, bad);
+    if (storage == "ref-adapter") // reference_storage<allocator_adapter<stateful>>
+        return free_run<ref_holder<adp>>(p, iters, bad);
+    if (storage == "direct-handle") // thread 1 works through an any_allocator_reference made from the thread_safe_allocator
+        return free_run<handle_holder<direct_holder<ialloc>>>(p, iters, bad);
     if (storage == "direct-emptymutex") // Mutex = empty class locking a process-wide std::mutex
         return free_run<direct_holder<ialloc, emutex>>(p, iters, bad);
     return free_run<any_holder<ialloc>>(p, iters, bad);
@@ -2219,7 +2260,7 @@ int main(int argc, char** argv)
                           .raw("input", jobj().str("storage", storage).str("alloc", "stateful").raw("prog", prog_json(p, false)).raw("calls", prog_json(p, true)).boolean("tsan", true).done())
                           .done());
     };
-    for (const char* storage : {"direct", "ref", "any", "direct-empty", "direct-tracked", "direct-emptymutex"})
+    for (const char* storage : {"direct", "ref", "any", "direct-empty", "direct-tracked", "direct-emptymutex", "ref-adapter", "direct-handle"})
     {
         auto br = run_batch(storage, progs, iters);
         runs += br.runs;
@@ -2240,7 +2281,7 @@ int main(int argc, char** argv)
     extra.num("free_runs", runs).num("tsan_reports", reports).num("programs_with_report", nviol).num("hung_batches", hangs);
     jobj out;
     out.num("evaluations", runs)
-        .num("distinct_nontrivial", (long long)progs.size() * 6)
+        .num("distinct_nontrivial", (long long)progs.size() * 8)
         .str("rule", "side run (sampling): every 2x2 program free-running with std::mutex under ThreadSanitizer")
         .raw("samples", samples.done())
         .boolean("exhaustive", false)
